@@ -470,5 +470,21 @@ pub fn run(ctx: &Ctx) -> Report {
         }
         report.violations.extend(st.violations);
     }
+    // third engine: programs fed one top-level statement at a time
+    {
+        let hooks = crate::mcheck::Hooks { attribute: &|_c, _m, _o, _mm| None, nontrivial: &|c, _m| c.prog.len() >= 3, fuel: 2_000_000 };
+        let corpus = crate::metamorph::standard_corpus(if thorough { 1 } else { 4 });
+        let cases = crate::metamorph::piecewise_cases("program_fed_one_statement_at_a_time", &corpus);
+        let n = cases.len();
+        let st = crate::mcheck::run(ctx, cases.into_iter(), &hooks);
+        report.cov(
+            "programs_fed_piecewise",
+            json!({
+                "rule": "metamorphic (the REPL law): every program of the standard corpus (C05/C06/C07/C08/C18 generators) that has at least two top-level statements is fed to one interpreter one top-level statement at a time, each a run of its own; the printed lines up to and including the first run that does not end normally, and that run's outcome, must be what M-eval gives for the whole program",
+                "cases": n, "executions": st.executions, "distinct": st.distinct.len(), "model_ok": st.model_ok, "model_uncaught_error": st.model_uncaught, "skipped_outside_model": st.unsupported,
+            }),
+        );
+        report.violations.extend(st.violations);
+    }
     report
 }
